@@ -352,7 +352,7 @@ struct C12Stats {
     uint64_t fn_ops[FN_COUNT] = {0};
     uint64_t fn_preempted[FN_COUNT] = {0};
     uint64_t fn_same_conflict[FN_COUNT] = {0};
-    uint64_t faults_alloc = 0, faults_wr = 0, faults_rd = 0;
+    uint64_t faults_alloc = 0, faults_wr = 0, faults_rd = 0, faults_sys = 0;
     uint64_t unstable = 0, nondeterministic = 0, footprint_ops = 0, mismatches = 0, carry_ops = 0, enumerated_conflict_schedules = 0;
     uint64_t det_checked = 0;
     std::set<uint64_t> fingerprints; // nontrivial schedule executions
@@ -396,7 +396,7 @@ static void flush_stats(C12Stats &st, const Args &a) {
     add("adjacent_plans", st.adjacent_plans); add("plans", st.plans); add("sched_exec", st.sched_exec); add("events", st.events); add("switches", st.switches);
     add("inner_switches", st.inner_switches); add("ops", st.ops); add("unstable", st.unstable); add("nondeterministic", st.nondeterministic);
     add("det_checked", st.det_checked); add("footprint_ops", st.footprint_ops); add("carry_ops", st.carry_ops); add("enumerated_conflict_schedules", st.enumerated_conflict_schedules); add("mismatches", st.mismatches);
-    add("faults_alloc", st.faults_alloc); add("faults_wr", st.faults_wr); add("faults_rd", st.faults_rd);
+    add("faults_alloc", st.faults_alloc); add("faults_wr", st.faults_wr); add("faults_rd", st.faults_rd); add("faults_sys", st.faults_sys);
     add("strat_sequential", st.strat[0]); add("strat_uniform", st.strat[1]); add("strat_pct", st.strat[2]); add("strat_targeted", st.strat[3]);
     s += ",\"fam_ops\":{";
     for (int f = 0; f < FAM_NFAM; f++) s += (f ? "," : "") + jstr(g_fam_name[f]) + ":" + std::to_string(st.fam_ops[f]);
@@ -494,7 +494,7 @@ int c12_batch(const Args &a) {
                 st.fn_ops[op.fn]++;
                 st.faults_alloc += r.nfailed;
                 st.faults_wr += r.wr_faults;
-                st.faults_rd += r.rd_faults;
+                st.faults_rd += r.rd_faults; st.faults_sys += r.sys_faults;
                 for (int lb = 0; g_libc_static_names[lb]; lb++) {
                     if (!(r.libc_static & (1u << lb))) continue;
                     std::string key = std::string("libc-static:") + g_fn[op.fn].name + ":" + g_libc_static_names[lb];
@@ -590,22 +590,45 @@ int c12_batch(const Args &a) {
         // call touches a word shared with a neighbouring task's memory, with every other task run to its end at exactly
         // that point (bounded: 64 per plan; these plans have two tasks and one or two short calls each)
         std::vector<Schedule> enumerated;
-        if (g.adjacent)
+        bool file_plan = false; // calls that open files: descriptor numbers and path names are process-wide
+        for (auto &tp : plan.tasks)
+            for (auto &op : tp.ops) file_plan |= op.fn >= 0 && op.fn < FN_COUNT && g_fn[op.fn].fam == FAM_FILE;
+        if (g.adjacent || file_plan) {
             for (size_t t = 0; t < plan.tasks.size(); t++)
                 for (size_t o = 0; o < plan.tasks[t].ops.size(); o++)
                     for (int e = 0; e < solo.res[t][o].n_edge; e++)
                         for (size_t w = 0; w < plan.tasks.size(); w++)
-                            if (w != t && enumerated.size() < 64) {
+                            if (w != t && enumerated.size() < 48) {
                                 Schedule es;
                                 es.start = (int)t;
                                 es.sw.push_back({(int)t, (int)o, solo.res[t][o].edge_ev[e], (int)w});
                                 enumerated.push_back(es);
                             }
+            // pairs: A stopped at one of its conflict points, B run up to one of its own, A run to its end, then B
+            // (neither call completes inside the other: what a call does to a descriptor or a shared word it no
+            // longer owns hits the other call while that one is still holding it)
+            size_t pairs = 0;
+            for (size_t t = 0; t < plan.tasks.size(); t++)
+                for (size_t o = 0; o < plan.tasks[t].ops.size(); o++)
+                    for (int e = 0; e < solo.res[t][o].n_edge; e++)
+                        for (size_t w = 0; w < plan.tasks.size(); w++)
+                            if (w != t)
+                                for (size_t o2 = 0; o2 < plan.tasks[w].ops.size(); o2++)
+                                    for (int e2 = 0; e2 < solo.res[w][o2].n_edge; e2++)
+                                        if (pairs < 48) {
+                                            Schedule es;
+                                            es.start = (int)t;
+                                            es.sw.push_back({(int)t, (int)o, solo.res[t][o].edge_ev[e], (int)w});
+                                            es.sw.push_back({(int)w, (int)o2, solo.res[w][o2].edge_ev[e2], (int)t});
+                                            enumerated.push_back(es);
+                                            pairs++;
+                                        }
+        }
         st.enumerated_conflict_schedules += enumerated.size();
         for (int k = 0; k < a.schedules + (int)enumerated.size(); k++) {
             Rng kr(mix64(mix64(rs, 4), k));
             int kind = k >= a.schedules ? 99 : (int)kr.below(20);
-            if (g.adjacent && kind != 99 && kr.chance(2, 3)) kind = 15; // adjacent-data plans: mostly conflict-directed schedules
+            if ((g.adjacent || file_plan) && kind != 99 && kr.chance(2, 3)) kind = 15; // adjacent-data plans: mostly conflict-directed schedules
             Schedule targeted;
             Strategy *strat = nullptr;
             int sk;
